@@ -153,3 +153,52 @@ fn c18_q_generic_i32_ops_scalar_def() {
     let m = isa.m32();
     kani::cover!(m.any(gt) && !m.all(gt), "mixed comparison mask");
 }
+
+/// simd_apply with UNROLL = 3 over i32 (4 lanes): lengths 0..=14 include
+/// remainders of more than two full vectors after the unrolled body.
+#[kani::proof]
+#[kani::unwind(16)]
+fn c18_q_simd_apply_unroll3_i32() {
+    let isa = GenericIsa::new();
+    let ops = isa.i32();
+    let mut buf: [i32; 16] = kani::any();
+    buf[0] = GUARD;
+    let orig = buf;
+    let len: usize = kani::any();
+    kani::assume(len <= 14);
+    buf[1 + len] = GUARD;
+    {
+        let xs = &mut buf[1..1 + len];
+        simd_apply::<i32, _, _, 3>(ops, xs, |x| ops.xor(x, ops.splat(0x5a5a)));
+    }
+    kani::cover!(len == 11, "two vectors and a tail after no unrolled block");
+    kani::cover!(len == 14, "unrolled block + tail");
+    let i: usize = kani::any();
+    kani::assume(i < len);
+    assert!(buf[1 + i] == orig[1 + i] ^ 0x5a5a, "lane differs from the scalar definition");
+    assert!(buf[0] == GUARD && buf[1 + len] == GUARD, "guard element overwritten");
+}
+
+/// Masked load/store of the generic ISA with an *arbitrary* mask (not only the
+/// prefix masks of the tail logic): exactly the active lanes are read/written.
+#[kani::proof]
+#[kani::unwind(6)]
+fn c18_q_generic_masked_load_store_any_mask() {
+    let isa = GenericIsa::new();
+    let ops = isa.i32();
+    let a: [i32; 4] = kani::any();
+    let b: [i32; 4] = kani::any();
+    // Mask lane k is active iff a[k] > b[k] (as produced by a comparison).
+    let mask = ops.gt(ops.load(&a), ops.load(&b));
+    let src: [i32; 4] = kani::any();
+    let mut dst: [i32; 6] = [GUARD; 6];
+    let v = unsafe { ops.load_ptr_mask(src.as_ptr(), mask) };
+    unsafe { ops.store_ptr_mask(v, dst.as_mut_ptr().add(1), mask) };
+    let lane: usize = kani::any();
+    kani::assume(lane < 4);
+    let active = a[lane] > b[lane];
+    kani::cover!(!(a[0] > b[0]) && a[1] > b[1], "mask with a hole before an active lane");
+    assert!(v.to_array()[lane] == if active { src[lane] } else { 0 }, "masked load lane wrong");
+    assert!(dst[1 + lane] == if active { src[lane] } else { GUARD }, "masked store lane wrong");
+    assert!(dst[0] == GUARD && dst[5] == GUARD, "masked store wrote outside its vector");
+}
